@@ -94,4 +94,8 @@ def select (ms : List (String × (Bytes → MR))) (b : Bytes) : SelRes :=
   | some m => .proto m.1
   | none => if ms.any (fun m => m.2 b == .again) then .again else .failed
 
+/-- the scope of a listener: configured protocol names, in order -/
+def scopeOf (names : List String) : List (String × (Bytes → MR)) :=
+  names.filterMap (fun n => (matcherOf n).map (fun m => (n, m)))
+
 end MosnVerif.Model.Match
